@@ -328,7 +328,7 @@ pub(crate) fn format_domain(domain: &IndexMap<String, DomainVariable>) -> String
         domain_groups
             .entry(type_str)
             .or_default()
-            .push(name.clone());
+            .push(crate::parser::il::il_exp::written_name(name));
     }
 
     // Format each group
